@@ -51,6 +51,18 @@ func newLib() *libState {
 
 func curLib() *libState { return lib.Load().(*libState) }
 
+// libs maps a peer to the recorder of the case that created it, so that a
+// handler still running for a peer of an earlier case cannot write into the
+// current case's recorder.
+var libs sync.Map
+
+func libFor(p erpc.Peer) *libState {
+	if v, ok := libs.Load(p); ok {
+		return v.(*libState)
+	}
+	return &libState{calls: map[string]int{}, pushes: map[string]int{}, entered: map[string]chan struct{}{}, gates: map[string]chan struct{}{}}
+}
+
 func (s *libState) tick(ev string) int64 {
 	s.mu.Lock()
 	defer s.mu.Unlock()
@@ -102,7 +114,7 @@ func mkStatus(a *LibArg) *erpc.Status {
 
 // LibDo is the library CALL handler.
 func LibDo(ctx erpc.CallCtx, a *LibArg) (interface{}, *erpc.Status) {
-	s := curLib()
+	s := libFor(ctx.Peer())
 	if a.Rid == "" {
 		a.Rid = string(ctx.PeekMeta("Rid"))
 	}
@@ -137,7 +149,7 @@ func LibDo(ctx erpc.CallCtx, a *LibArg) (interface{}, *erpc.Status) {
 
 // LibNote is the library PUSH handler.
 func LibNote(ctx erpc.PushCtx, a *LibArg) *erpc.Status {
-	s := curLib()
+	s := libFor(ctx.Peer())
 	if a.Rid == "" {
 		a.Rid = string(ctx.PeekMeta("Rid"))
 	}
@@ -204,6 +216,19 @@ var (
 )
 
 // registerLib registers the library handlers and returns their route names.
+var libPeers struct {
+	sync.Mutex
+	order []erpc.Peer
+}
+
 func registerLib(p erpc.Peer) (callRoute, pushRoute string) {
+	libs.Store(p, curLib())
+	libPeers.Lock()
+	libPeers.order = append(libPeers.order, p)
+	for len(libPeers.order) > 64 {
+		libs.Delete(libPeers.order[0])
+		libPeers.order = libPeers.order[1:]
+	}
+	libPeers.Unlock()
 	return p.RouteCallFunc(LibDo), p.RoutePushFunc(LibNote)
 }
